@@ -140,7 +140,7 @@ theorem quantilesInt_ok (x : List Int) (n : Nat) (method : Method) (rounds rest 
 
 example : quantilesInt [5, 1, 4, 2, 3] 4 .exclusive [] = .ok ([2, 3, 5], []) := by decide
 example : quantilesInt [5, 1, 4, 2, 3] 4 .inclusive [] = .ok ([2, 3, 4], []) := by decide
-example : quantilesInt [10, -7, 3, 8] 3 .inclusive [] = .ok ([3, 8], []) := by decide
+example : quantilesInt [10, -7, 3, 8] 4 .inclusive [] = .ok ([1, 6, 9], []) := by decide
 example : quantilesInt [5, 1] 0 .exclusive [] = .error "StatisticsError" := by decide
 example : quantilesInt [5] 4 .exclusive [] = .error "StatisticsError" := by decide
 example : cutIndex 5 4 .exclusive 3 = (4, 2) := by decide
